@@ -72,9 +72,19 @@ class PROP(Prop):
                 slave = rng.randrange(256)
                 ops.append("slave %d" % slave)
             else:
-                hreq = ("RHR", rng.randrange(100), 1)
-                fr = cligen.frame(proto, ncalls, slave, mb.spec_rsp_pdu(("RHR", [7])))
-                ops.append(cligen.call_op(hreq, R="d" + fr.hex()))
+                hreq = rng.choice([("RHR", rng.randrange(100), 1), ("WSR", rng.randrange(100), 7), ("RC", 1, 8)])
+                fr = cligen.frame(proto, ncalls, slave, mb.spec_rsp_pdu(mb.matching_rsp(rng, hreq)))
+                how = rng.random()
+                if how < 0.5:
+                    ops.append(cligen.call_op(hreq, R="d" + fr.hex()))
+                elif how < 0.75:
+                    # abandoned while waiting for its reply (what a timeout does): its late reply is then a FOREIGN reply for the next call
+                    # (no reply bytes at all for it: a stale fragment showing up later would garble the next reply's framing on RTU)
+                    ops.append(cligen.call_op(hreq, R=rng.choice(["p", "p,p"]), drop=rng.choice(["0", "1"])))
+                elif how < 0.9:
+                    ops.append(cligen.call_op(hreq, R="e:TimedOut"))
+                else:
+                    ops.append(cligen.call_op(hreq, W="p,p", drop="0"))
                 ncalls += 1
         tid = ncalls & 0xFFFF
         rtid = tid_abs if tid_abs is not None else (tid + dtid) & 0xFFFF
@@ -107,7 +117,7 @@ class PROP(Prop):
         ops.append(cligen.call_op(req, R="d" + fr.hex()))
         cs.append(Case(cligen.cli_line(proto, slave0, ops),
                        {"hdr_eq": rtid == tid and ruid == slave, "req_fc": fc, "rsp_fc": pdu[0] & 0x7F if pdu[0] >= 0x80 else pdu[0],
-                        "exc": pdu[0] >= 0x80, "rr": rr, "n": len(ops)}))
+                        "exc": pdu[0] >= 0x80, "rr": rr, "n": len(ops), "hist": history}))
 
     def oracle(self, c):
         rs = cligen.split_results(c.impl)
